@@ -154,7 +154,7 @@ func c14Restore(c *rt.C) {
 		c.Inconclusive("quiescence probe did not settle")
 		return
 	}
-	w := WalkLive(fresh.N.VerifStore(), nitroInsCmp(fresh.KV), nitro.ItemSize, 1<<22, func() func(unsafe.Pointer) bool {
+	w := WalkLive(fresh.N.VerifStore(), fresh.InsCmp(), nitro.ItemSize, 1<<22, func() func(unsafe.Pointer) bool {
 		if fresh.A == nil {
 			return nil
 		}
